@@ -205,4 +205,38 @@ example : nestChainsModes (fileOf [[[(1 : ℝ), 0, 7, 8], [3, 0, 9, 10]], [[2, 0
   (chain_files_unchanged.2.1 [[[(1 : ℝ), 0, 7, 8], [3, 0, 9, 10]], [[2, 0, 5, 6]]] 2 (by simp) (by simp) (by norm_num)
     (by simp))
 
+/-- **The solution is evaluated where each parameter's own prior says.**  `update_model` hands the model, for the sampled
+    vector `v` (the MAP, the median, every sample of a derived trace), the vector `modelPoint bs v`: it has one entry per
+    fitted parameter and entry `i` is `prior_i.prior(v_i)` — the map of the prior object of THAT parameter, whatever the
+    other priors are.  For the built-in classes the map is `x` or `10 ** x`; a user-defined prior that overrides `prior`
+    (here: natural-log space, scaled units) is applied as it is — it is not re-derived from the prior's log / linear mode —
+    so a parameter sampled as `ln y` (resp. `log10 y`) reaches the model as `y`. -/
+theorem model_point_through_prior (bs : List (Back ℝ)) (v : List ℝ) (hlen : bs.length = v.length) :
+    (modelPoint bs v).length = v.length ∧
+    (∀ (i : ℕ) (b : Back ℝ) (x : ℝ), bs[i]? = some b → v[i]? = some x → (modelPoint bs v)[i]? = some (b.apply x)) ∧
+    (∀ x : ℝ, Back.identity.apply x = x ∧ Back.pow10.apply x = (10 : ℝ) ^ x ∧ Back.expNat.apply x = Real.exp x) ∧
+    (∀ a b x : ℝ, (Back.affine a b).apply x = a * x + b) ∧
+    (∀ y : ℝ, 0 < y → Back.expNat.apply (Real.log y) = y ∧ Back.pow10.apply (Real.log y / Real.log 10) = y) := by
+  refine ⟨by simp [modelPoint, hlen], ?_, fun x => ⟨rfl, rfl, rfl⟩, fun a b x => rfl, ?_⟩
+  · intro i b x hb hx
+    simp [modelPoint, List.getElem?_zipWith, hb, hx]
+  · intro y hy
+    refine ⟨Real.exp_log hy, ?_⟩
+    show (10 : ℝ) ^ (Real.log y / Real.log 10) = y
+    have h10 : (0 : ℝ) < 10 := by norm_num
+    have hl : Real.log 10 ≠ 0 := ne_of_gt (Real.log_pos (by norm_num))
+    rw [Real.rpow_def_of_pos h10, mul_div_cancel₀ _ hl, Real.exp_log hy]
+
+/-- three fitted parameters: a built-in linear prior, a built-in log prior and a user-defined prior in scaled units -/
+example : modelPoint [Back.identity, Back.pow10, Back.affine 2 (-1)] [(3 : ℝ), 2, 5] = [3, 100, 9] := by
+  simp [modelPoint, Back.apply]
+  norm_num
+
+/-- a parameter sampled in natural-log space through a user-defined prior reaches the model in linear space, and the
+    user-defined map is not the identity a linear-mode prior would otherwise stand for -/
+example : Back.expNat.apply (Real.log 7) = (7 : ℝ) ∧ (Back.affine 2 (-1)).apply (5 : ℝ) ≠ Back.identity.apply 5 := by
+  refine ⟨((model_point_through_prior [] [] rfl).2.2.2.2 7 (by norm_num)).1, ?_⟩
+  simp [Back.apply]
+  norm_num
+
 end Taurex.C09
